@@ -164,6 +164,9 @@ func checkMain(args []string) int {
 		}
 		results = append(results, commuteObligations(w, ss, fn)...)
 	}
+	if lr := verifyLemmas(w, ss); len(lr.Obls) > 0 || len(lr.Errors) > 0 {
+		results = append(results, lr)
+	}
 	for _, r := range results {
 		broken = append(broken, r.Errors...)
 	}
